@@ -7,6 +7,7 @@
   Hence every command applied by anyone — nested reactions, manual runs, a re-run of the same reactor, probes — starts
   from cleared flags and sees only what its own `setup` establishes.
 -/
+import Cobweb.Proofs.Frames
 import Cobweb.Proofs.Boot
 import Cobweb.Proofs.Trackers
 import Cobweb.Proofs.Flags
@@ -204,12 +205,12 @@ theorem take_once (s : St) (w : Option Nat) (ty : Nat) (x : DataEnt)
       split at h
       · rename_i hc
         simp only [Option.some.injEq] at h; subst h
-        have hobs : (observe s w).2 = { s with data := upd s.data s.trkSys.cur (some { y with taken := true }) } := by
+        have hobs : (observe s w).2 = bumpLocal { s with data := upd s.data s.trkSys.cur (some { y with taken := true }) } w := by
           simp only [observe, hr, ↓reduceIte, hy]
           have : y.kind = DKind.sys ∧ s.alive s.trkSys.cur = true ∧ y.ty < numTy := ⟨hc.1, hc.2.2, by rw [hc.2.1]; exact hty⟩
           simp [this]
         rw [hobs]
-        simp only [readData, hr, ↓reduceIte, upd_same]
+        simp only [readData, bumpLocal_trkSys, bumpLocal_data, bumpLocal_alive, hr, ↓reduceIte, upd_same]
         split
         · rename_i z hz
           split at hz
